@@ -336,6 +336,53 @@ pub fn run(tier: Tier, seed: u64) -> i32 {
             cx.sample(json!({"suite": api.name(), "part": "in-memory baseline", "plans": plans.len()}));
         }));
     }
+    // (c) many generators, reload everywhere: key-dependent persistence defects (a decoder that refuses one valid key in
+    // 64) need the key to come up; 64 (quick) / 512 (thorough) tapes per suite, every object reloaded in each codec
+    {
+        let cs = chains(false);
+        let nt = if tier.thorough() { 512 } else { 64 };
+        let mut items = vec![];
+        for api in all_apis() {
+            for chunk in 0..(nt / 16) {
+                items.push((api, chunk));
+            }
+        }
+        tot.merge(fw::run_items("C13", &items, |(a, _)| a.name().to_string(), |(api, chunk), cx| {
+            let p = setting(1);
+            let none: [Chain; 6] = Default::default();
+            cx.context_done();
+            for t in (*chunk * 16)..(*chunk * 16 + 16) {
+                let label = format!("seed{}/c13/mem/t{}", seed, t);
+                cx.begin_case(json!({"tape": label, "reload": "every persistence point"}));
+                let base = match api.flow_in_memory(&mut Tape::new(&label), &p.pw, &p.cid, o(&p.ctx), o(&p.idu), o(&p.ids), &none) {
+                    Ok(b) => b,
+                    Err((st, e)) => {
+                        cx.violate(&format!("honest-step/in-memory-flow/{}", st), format!("uninterrupted in-memory flow fails at step {}: {:?}", st, e));
+                        continue;
+                    }
+                };
+                for c in 1..cs.len() {
+                    if !cx.state(&("memtape", t, c)) {
+                        continue;
+                    }
+                    cx.edges += 1;
+                    cx.path();
+                    let plan: [Chain; 6] = [cs[c].clone(), cs[c].clone(), cs[c].clone(), cs[c].clone(), cs[c].clone(), cs[c].clone()];
+                    match api.flow_in_memory(&mut Tape::new(&label), &p.pw, &p.cid, o(&p.ctx), o(&p.idu), o(&p.ids), &plan) {
+                        Ok(f) if f == base => cx.outcome("equals-in-memory-run"),
+                        Ok(_) => {
+                            cx.outcome("DIVERGED");
+                            cx.violate(&format!("in-memory/diverges/all/{:?}", cs[c]), format!("with every object reloaded through {:?} the flow differs from the run whose state never left memory", cs[c]));
+                        }
+                        Err((st, e)) => {
+                            cx.outcome("FAILED-AFTER-RELOAD");
+                            cx.violate(&format!("in-memory/fails-after-reload/all/{:?}", cs[c]), format!("with every object reloaded through {:?} the flow fails at step {}: {:?} (the in-memory run on the same generator succeeds)", cs[c], st, e));
+                        }
+                    }
+                }
+            }
+        }));
+    }
     // thorough: every one of the 4^6 flows explicitly, no merging, on the two fastest suites
     let mut explicit = 0u64;
     if tier.thorough() {
